@@ -65,23 +65,23 @@ type opRec struct {
 }
 
 type sched struct {
-	mu      sync.Mutex
-	n       int
-	maxWb   int
-	goids   map[uint64]int
-	nextWb  int
-	arrive  chan int
-	wbLeft  chan int
-	resume  []chan struct{}
-	free    bool
-	step    int
-	cur     []*opRec
-	acc     []access
-	expWb   int
-	faults  [][]bool
-	over    bool
-	keys    []string
-	wbSteps map[int]int
+	mu     sync.Mutex
+	n      int
+	maxWb  int
+	goids  map[uint64]int
+	nextWb int
+	arrive chan int
+	wbLeft chan int
+	resume []chan struct{}
+	free   bool
+	step   int
+	cur    []*opRec
+	acc    []access
+	expWb  int
+	faults [][]bool
+	over   bool
+	keys   []string
+	wbRead []int // step of the persistent read that fed the j-th write-back
 }
 
 func (s *sched) keyIndex(key string) int {
@@ -150,6 +150,17 @@ func (s *sched) leave(who int) {
 
 // ---- tier doubles -------------------------------------------------------------------------------
 
+// cp copies list values on the way in and out, as a serialising tier (Redis, gRPC, JSON file) does.  memory.Storage
+// hands out its internal slice by reference; hybrid.AppendToList then appends in place, so two overlapping calls
+// additionally race on the shared backing array (which element survives depends on slice capacity).  The model
+// has value semantics, so the doubles give the tiers value semantics too.
+func cp(v any) any {
+	if l, ok := v.([]interface{}); ok {
+		return append(make([]interface{}, 0, len(l)), l...)
+	}
+	return v
+}
+
 type cacheDouble struct {
 	under *memory.Storage
 	tier  int
@@ -162,7 +173,7 @@ func (c *cacheDouble) Set(key string, v any, ttl time.Duration) error {
 	if f {
 		return errInjected
 	}
-	return c.under.Set(key, v, ttl)
+	return c.under.Set(key, cp(v), ttl)
 }
 func (c *cacheDouble) Get(key string) (any, error) {
 	who, f := c.s.enter(c.tier, "Get", key)
@@ -170,7 +181,8 @@ func (c *cacheDouble) Get(key string) (any, error) {
 	if f {
 		return nil, errInjected
 	}
-	return c.under.Get(key)
+	v, err := c.under.Get(key)
+	return cp(v), err
 }
 func (c *cacheDouble) Delete(key string) error {
 	who, f := c.s.enter(c.tier, "Delete", key)
@@ -195,7 +207,7 @@ func (c *cacheDouble) SetNX(key string, v any, ttl time.Duration) (bool, error) 
 	if f {
 		return false, errInjected
 	}
-	return c.under.SetNX(key, v, ttl)
+	return c.under.SetNX(key, cp(v), ttl)
 }
 func (c *cacheDouble) Incr(key string) (int64, error) { return c.IncrBy(key, 1) }
 func (c *cacheDouble) IncrBy(key string, d int64) (int64, error) {
@@ -221,7 +233,7 @@ func (p *persDouble) Set(key string, v any) error {
 	}
 	p.mu.Lock()
 	defer p.mu.Unlock()
-	p.m[key] = v
+	p.m[key] = cp(v)
 	return nil
 }
 func (p *persDouble) Get(key string) (any, error) {
@@ -239,9 +251,10 @@ func (p *persDouble) Get(key string) (any, error) {
 	if p.s != nil {
 		p.s.mu.Lock()
 		p.s.expWb++ // hybrid.Get / getSharedPersistent spawn one write-back per successful persistent read
+		p.s.wbRead = append(p.s.wbRead, p.s.step)
 		p.s.mu.Unlock()
 	}
-	return v, nil
+	return cp(v), nil
 }
 func (p *persDouble) Delete(key string) error {
 	who, f := p.s.enter(tPers, "Delete", key)
@@ -347,6 +360,7 @@ type caseIn struct {
 	Threads []thrIn  `json:"threads"`
 	Sched   []int    `json:"sched"`
 	MaxWb   int      `json:"max_wb"`
+	Reader  bool     `json:"reader"` // the last caller only runs once everything else (write-backs included) has quiesced
 	N       int      `json:"n"`
 	M       int      `json:"m"`
 	Kind    string   `json:"kind"`
@@ -355,6 +369,7 @@ type viol struct {
 	Kind string `json:"kind"`
 	Msg  string `json:"msg"`
 	K    int    `json:"k"`
+	Sup  string `json:"sup,omitempty"` // stale-read: the completed mutation the read should have reflected
 }
 type caseOut struct {
 	Logs      [][]*opRec `json:"logs"`
@@ -365,6 +380,7 @@ type caseOut struct {
 	Cats      []int      `json:"cats"`
 	CacheSh   []bool     `json:"cache_shared"`
 	Viol      []viol     `json:"viol"`
+	WbRead    []int      `json:"wb_read"`
 	WbMissing bool       `json:"wb_missing"`
 	Overflow  bool       `json:"overflow"`
 	Extra     any        `json:"extra,omitempty"`
@@ -535,7 +551,7 @@ func runSched(c caseIn) *caseOut {
 	n := len(c.Threads)
 	tot := n + c.MaxWb
 	s := &sched{n: n, maxWb: c.MaxWb, goids: map[uint64]int{}, arrive: make(chan int), wbLeft: make(chan int),
-		resume: make([]chan struct{}, tot), cur: make([]*opRec, n), faults: make([][]bool, n), keys: c.Keys, wbSteps: map[int]int{}}
+		resume: make([]chan struct{}, tot), cur: make([]*opRec, n), faults: make([][]bool, n), keys: c.Keys}
 	for i := range s.resume {
 		s.resume[i] = make(chan struct{})
 	}
@@ -664,21 +680,27 @@ func runSched(c caseIn) *caseOut {
 	for _, i := range c.Sched {
 		stepOne(i)
 	}
-	for progress := true; progress; {
-		progress = false
-		for i := 0; i < n; i++ {
-			for !finished[i] {
-				stepOne(i)
-				progress = true
+	drain := func(lim int) {
+		for progress := true; progress; {
+			progress = false
+			for i := 0; i < lim; i++ {
+				for !finished[i] {
+					stepOne(i)
+					progress = true
+				}
 			}
-		}
-		for j := n; j < tot; j++ {
-			if parked[j] && !finished[j] {
-				stepOne(j)
-				progress = true
+			for j := n; j < tot; j++ {
+				if parked[j] && !finished[j] {
+					stepOne(j)
+					progress = true
+				}
 			}
 		}
 	}
+	if c.Reader && n > 0 {
+		drain(n - 1)
+	}
+	drain(n)
 	if out.Sched == nil {
 		out.Sched = []int{}
 	}
@@ -686,6 +708,7 @@ func runSched(c caseIn) *caseOut {
 	out.Acc = s.acc
 	out.Spawned = s.nextWb
 	out.Overflow = s.over
+	out.WbRead = append([]int{}, s.wbRead...)
 	s.free = true
 	s.mu.Unlock()
 	if out.Acc == nil {
@@ -842,11 +865,12 @@ func staleReads(c caseIn, k int, all []*opRec, init string) []viol {
 			}
 		}
 		if !ok {
-			after := "the initial state"
+			after, sup := "the initial state", "init"
 			if newest != nil {
 				after = fmt.Sprintf("%s, which had returned at step %d", newest.what, newest.last)
+				sup = strings.SplitN(newest.what, "(", 2)[0]
 			}
-			out = append(out, viol{Kind: "stale-read", K: k, Msg: fmt.Sprintf("%s of key %q at steps %d..%d returned %s after %s; values still current then: %v",
+			out = append(out, viol{Kind: "stale-read", K: k, Sup: sup, Msg: fmt.Sprintf("%s of key %q at steps %d..%d returned %s after %s; values still current then: %v",
 				g.Op, c.Keys[k], g.First, g.Last, obs, after, keysOf(allowed))})
 		}
 	}
